@@ -151,3 +151,15 @@ Lemma wsx2_facts :
   definition_member (absws wsx2) wx_aUser (Some [71;111]) wx_aChild [102;99] = [(wx_aChild, 1)] /\
   completion_member (absws wsx2) wx_aUser (Some [71;111]) wx_aChild = [[102;99]; wx_Run; wx_Base; wx_fp].
 Proof. vm_compute. repeat split; reflexivity. Qed.
+
+(* the cycle witness after the cut of the document that closes the cycle seen from aChild (document 0) *)
+From GoldV Require Import WsTreeTerm WsTreeCut.
+Lemma wsx_cyc_cut_facts :
+  lineage_t wsx_cyc 0 = Ans (true, [0]%nat) /\
+  ws_acyclicb (cut_ws wsx_cyc 0) = true /\
+  lineage_t (cut_ws wsx_cyc 0) 0 = Ans (false, [0]%nat) /\
+  lineage_t (cut_ws wsx_cyc 0) 1 = Ans (false, [1; 0]%nat) /\
+  lineage3 wsx_cyc 0 = WAns true [0]%nat /\
+  wdefinition wsx_cyc 0 (mkPos 5 9) = wdefinition (cut_ws wsx_cyc 0) 0 (mkPos 5 9) /\
+  wdefinition wsx_cyc 0 (mkPos 5 14) = wdefinition (cut_ws wsx_cyc 0) 0 (mkPos 5 14).
+Proof. vm_compute. repeat split; reflexivity. Qed.
